@@ -1,8 +1,8 @@
 package vsim
 
 import (
-	"github.com/uber/tchannel-go/simrt"
 	"fmt"
+	"github.com/uber/tchannel-go/simrt"
 	"time"
 
 	"vsim/wire"
@@ -320,7 +320,7 @@ func (w *World) poisonRelayCallee() {
 			s := CallSpec{From: cli, To: rn.HostPort, Service: "x", Via: "relay x1", Timeout: time.Duration(20+scn(300)) * w.Grid, Pad2: scn(300), Len3: scn(3000), Rs2: scn(500), Rs3: scn(3000), NoCheck: true}
 			if scnChance(1, 3) {
 				s.Service, s.NoCheck, s.Rs2, s.Rs3 = srv.Service, false, -1, -1 // the legitimate server, through the same relay
-				s.Timeout = 5 * time.Second                                    // (no deadline pressure on these: they must simply work)
+				s.Timeout = 5 * time.Second                                     // (no deadline pressure on these: they must simply work)
 			}
 			recs = append(recs, w.newCall(s))
 		}
